@@ -77,7 +77,9 @@ def main(argv):
     paths = branches = checks = concretisations = claims = 0
     solver_s = 0.0
     cases = []
+    xcheck = {"asked": 0, "agree": 0, "no_verdict": 0, "disagree": []}
     for ob, r in zip(obligations, results):
+        sym.merge_xcheck({"xcheck": xcheck}, r)
         status_count[r["status"]] = status_count.get(r["status"], 0) + 1
         paths += r.get("paths", 0)
         branches += r.get("branches", 0)
@@ -133,6 +135,8 @@ def main(argv):
         problems.append("counterexample did not reproduce on unmodified code (engine gap): %s: %s" % (
             case.get("key") or case["oid"], str(rr.get("detail"))[:400]))
 
+    for q in xcheck["disagree"][:3]:
+        problems.append("second solver (cvc5) answers sat where z3 answered unsat: %s" % q[:600])
     inconclusive = [(ob.oid, r.get("inconclusive", [])[:2]) for ob, r in zip(obligations, results)
                     if r["status"] == "inconclusive"]
     nontrivial = sum(1 for r in results if r.get("claims", 0) > 0 and r["status"] in ("confirmed", "refuted"))
@@ -184,6 +188,10 @@ def main(argv):
         "harness_problems": problems[:10],
         "repo_head": common.git_head(common.REPO),
         "solver": "z3 " + z3.get_version_string(),
+        "second_solver": {"solver": "cvc5 (binary on PATH)", "sampling": "the first %d unsat claim(s) of every obligation" % sym.XCHECK_PER_ENGINE,
+                          "queries": xcheck["asked"], "agree_unsat": xcheck["agree"],
+                          "no_verdict(parse error / unknown / timeout)": xcheck["no_verdict"],
+                          "disagree": len(xcheck["disagree"])},
     }
     coverage.update(extra)
     ev = {
